@@ -22,6 +22,7 @@ type Layout struct {
 	FrameDurs      []uint32 // if set: video frame durations cycle through these values (variable frame rate) instead of FrameDur
 	Thumbs         int      // number of thumbnail images per loop (0 = none); their duration is loop/Thumbs, whatever the video segments are
 	ImageBeforeTxt bool     // MPD order audio, video, image, text (instead of video, audio, text, image)
+	AudioTS        uint32   // media timescale of the AAC track (0 = 48000); 44100 gives 1024-sample frames of 23.2 ms
 	AudioOnly      bool     // the MPD has no video AdaptationSet (radio): the audio track is the reference track
 	Audio2AC3      bool     // a second audio AdaptationSet (AC-3, 1536-sample frames, same 48 kHz timescale) built from bundled bbb_hevc_ac3_8s
 	TextBothSizes  bool     // subtitle segments carry the sample size both as tfhd default_sample_size and in the trun
@@ -38,6 +39,13 @@ type Layout struct {
 	VideoID        string
 	TimeOffset     uint64 // first video tfdt (media time of the first VoD segment)
 	Shift          []int  // Shift[i]: the boundary after video segment i is moved by this many ticks (last frame longer, next first frame shorter)
+}
+
+func (l Layout) audioTS() uint32 {
+	if l.AudioTS != 0 {
+		return l.AudioTS
+	}
+	return 48000
 }
 
 type srcTrack struct {
@@ -212,7 +220,7 @@ func Generate(root, src string, l Layout) error {
 		if l.AudioTrexDur != 0 {
 			audio.init.Moov.Mvex.Trex.DefaultSampleDuration = l.AudioTrexDur
 		}
-		if err := writeInit(filepath.Join(dir, "A48", "init.mp4"), audio.init, 48000); err != nil {
+		if err := writeInit(filepath.Join(dir, "A48", "init.mp4"), audio.init, l.audioTS()); err != nil {
 			return err
 		}
 		t := uint64(0)
@@ -377,7 +385,7 @@ func Generate(root, src string, l Layout) error {
 	audioAS, textAS, imageAS := "", "", ""
 	if asegs != nil {
 		audioAS = fmt.Sprintf(`  <AdaptationSet contentType="audio" id="2" mimeType="audio/mp4" lang="en" segmentAlignment="true" startWithSAP="1">%s<Representation id="A48" codecs="mp4a.40.2" bandwidth="48000" audioSamplingRate="48000"/></AdaptationSet>
-`, tmpl(48000, asegs))
+`, tmpl(l.audioTS(), asegs))
 	}
 	if a2segs != nil {
 		audioAS += fmt.Sprintf(`  <AdaptationSet contentType="audio" id="5" mimeType="audio/mp4" lang="en" segmentAlignment="true" startWithSAP="1">%s<Representation id="AC3" codecs="ac-3" bandwidth="96000" audioSamplingRate="48000"/></AdaptationSet>
@@ -464,6 +472,8 @@ func ExtraLayouts() []Layout {
 		{Name: "x_audio_only", VideoTS: 90000, FrameDur: 3000, SegFrames: []int{60, 60, 60, 60}, AudioSegs: []int{94, 94, 94, 93}, AudioOnly: true},
 		// two audio AdaptationSets with one timescale and different frame durations (AAC 1024, AC-3 1536)
 		{Name: "x_two_audio", VideoTS: 90000, FrameDur: 3000, SegFrames: []int{60, 60, 60, 60}, AudioSegs: []int{94, 94, 94, 93}, Audio2AC3: true},
+		// AAC at 44.1 kHz (segments of 86 frames, just under 2 s; the loop is the video's)
+		{Name: "x_audio_441", VideoTS: 90000, FrameDur: 3000, SegFrames: []int{60, 60, 60, 60}, AudioSegs: []int{87, 86, 86, 86}, AudioTS: 44100},
 		{Name: "x_rep_ids", VideoTS: 90000, FrameDur: 3000, SegFrames: []int{60, 60, 60, 60}, AudioSegs: []int{94, 94, 94, 93}, VideoID: "V300:b", ExtraVideo: "V300_b"},
 		{Name: "x_two_video_grids", VideoTS: 90000, FrameDur: 3000, SegFrames: []int{60, 60, 60, 60}, ExtraVideo: "V8s", ExtraSegFrames: []int{240}, ExtraOwnAS: true, UseTime: true},
 	}
